@@ -181,6 +181,83 @@ pub fn run(r: &mut Report, ctx: &Ctx) {
             true,
         );
     }
+    if ctx.want("error-payloads") {
+        // what the reader's error CARRIES must not matter: the helper converts it with `?`, and a conversion that
+        // inspects kind + payload (e.g. to "unwrap" one of the crate's own error types) would turn an I/O error into
+        // something else
+        const KINDS: [ErrorKind; 8] = [ErrorKind::Other, ErrorKind::InvalidData, ErrorKind::InvalidInput, ErrorKind::UnexpectedEof, ErrorKind::NotFound, ErrorKind::PermissionDenied, ErrorKind::OutOfMemory, ErrorKind::Unsupported];
+        const PAYLOADS: [&str; 8] = ["none", "text", "generator-too-small", "generator-too-large", "generator-distribution", "parse-error", "generator-or-io", "nested-io"];
+        const AFTER: [usize; 4] = [0, 5, 5000, 2 * BUF + 3];
+        fn make_error(kind: ErrorKind, payload: &str) -> std::io::Error {
+            use tlsh::{GeneratorError as G, ParseError as P};
+            match payload {
+                "none" => kind.into(),
+                "text" => std::io::Error::new(kind, "scripted"),
+                "generator-too-small" => std::io::Error::new(kind, G::TooSmallInput),
+                "generator-too-large" => std::io::Error::new(kind, G::TooLargeInput),
+                "generator-distribution" => std::io::Error::new(kind, G::BucketsAreHalfEmpty),
+                "parse-error" => std::io::Error::new(kind, P::InvalidCharacter),
+                "generator-or-io" => std::io::Error::new(kind, GeneratorOrIOError::GeneratorError(G::TooSmallInput)),
+                _ => std::io::Error::new(kind, std::io::Error::new(ErrorKind::Interrupted, "inner")),
+            }
+        }
+        struct FailAfter {
+            after: usize,
+            pos: usize,
+            kind: ErrorKind,
+            payload: &'static str,
+        }
+        impl std::io::Read for FailAfter {
+            fn read(&mut self, buf: &mut [u8]) -> std::io::Result<usize> {
+                if self.pos >= self.after {
+                    return Err(make_error(self.kind, self.payload));
+                }
+                let n = buf.len().min(self.after - self.pos).min(4096 + 7);
+                Stream::Mixed.fill(self.pos as u64, &mut buf[..n]);
+                self.pos += n;
+                Ok(n)
+            }
+        }
+        let total = (KINDS.len() * PAYLOADS.len() * AFTER.len() * 5) as u64;
+        r.section(
+            "error-payloads",
+            "a reader that delivers k bytes (k in {0, 5, 5000, 2 MiB + 3}) in short reads and then fails with every combination of 8 error kinds and 8 payloads (none, text, each of the crate's own error types incl. GeneratorError and GeneratorOrIOError, a nested io::Error whose inner kind is Interrupted): the result must be Err(IOError(e)) with e's kind, never a hash and never a generator error; non-trivial = all",
+            &format!("{} kinds x {} payloads x {} positions x 5 variants", KINDS.len(), PAYLOADS.len(), AFTER.len()),
+            true,
+            |s| {
+                s.acc = par_for(total, 4, |idx, acc| {
+                    let v = (idx % 5) as usize;
+                    let after = AFTER[((idx / 5) % 4) as usize];
+                    let payload = PAYLOADS[((idx / 20) % 8) as usize];
+                    let kind = KINDS[(idx / 160) as usize];
+                    acc.evals += 1;
+                    acc.transitions += 1;
+                    acc.nontrivial += 1;
+                    fn go<V: Variant>(after: usize, kind: ErrorKind, payload: &'static str) -> Result<(), String> {
+                        let mut rd = FailAfter { after, pos: 0, kind, payload };
+                        let res = catch(|| V::hash_stream(&mut rd)).map_err(|p| format!("{} hash_stream panicked: {p}", V::NAME))?;
+                        match res {
+                            Err(GeneratorOrIOError::IOError(e)) if e.kind() == kind => Ok(()),
+                            other => Err(format!(
+                                "{}: reader failed with {kind:?} (payload {payload}) after {after} bytes; hash_stream = {}",
+                                V::NAME,
+                                match other { Ok(h) => format!("Ok({h})"), Err(e) => format!("Err({e:?})") }
+                            )),
+                        }
+                    }
+                    match with_variant!(v, go(after, kind, payload)) {
+                        Ok(()) => {
+                            acc.outcomes.insert(idx / 20);
+                            if idx % 211 == 0 {
+                                acc.sample(idx, || json!({"variant": VARIANT_NAMES[v], "after": after, "kind": format!("{kind:?}"), "payload": payload}));
+                            }
+                        }
+                        Err(e) => acc.fail(idx, "error-payloads", e, json!({"kind": "error-payload", "key": format!("error-payload-{kind:?}-{payload}"), "variant": VARIANT_NAMES[v], "after": after, "error_kind": format!("{kind:?}"), "payload": payload})),
+                    }
+                });
+            },
+        );
+    }
     if ctx.want("scripts-big") {
         let maxd = if quick { 1 } else { 2 };
         let variants: Vec<usize> = if quick { vec![1, 0] } else { all5.to_vec() };
